@@ -108,7 +108,7 @@ pub fn yaml_sx(y: &Yaml) -> String {
             s.push(')');
             s
         }
-        Yaml::Tagged(_) => "tagged".into(),
+        Yaml::Tagged(t) => format!("(tagged {})", yaml_sx(&t.value)),
     }
 }
 
@@ -142,6 +142,10 @@ pub fn sx_yaml(x: &Sx) -> Option<Yaml> {
                     let b: u64 = atom(xs.get(1)?)?.parse().ok()?;
                     Some(Yaml::Number(f64::from_bits(b).into()))
                 }
+                "tagged" => Some(Yaml::Tagged(Box::new(serde_yaml::value::TaggedValue {
+                    tag: serde_yaml::value::Tag::new("t"),
+                    value: sx_yaml(xs.get(1)?)?,
+                }))),
                 "seq" => {
                     let mut out = vec![];
                     for x in &xs[1..] {
